@@ -13,6 +13,8 @@ import (
 	"fmt"
 	"os"
 	"os/exec"
+	"runtime/debug"
+	"syscall"
 	"strings"
 	"sync"
 	"sync/atomic"
@@ -66,7 +68,18 @@ func probeLimit() time.Duration {
 	return 3 * time.Second
 }
 
+// workerAS is the worker's own address-space limit (below the driver's 16 GiB):
+// an attacker-sized request above it is an immediate, cheap fatal error instead
+// of gigabytes for the collector to scan.
+const workerAS = 4 << 30
+
 func workerMain() {
+	var lim syscall.Rlimit
+	if syscall.Getrlimit(syscall.RLIMIT_AS, &lim) == nil && lim.Cur > workerAS {
+		lim.Cur = workerAS
+		syscall.Setrlimit(syscall.RLIMIT_AS, &lim)
+	}
+	debug.SetGCPercent(400)
 	in := bufio.NewReaderSize(os.Stdin, 1<<20)
 	out := bufio.NewWriterSize(os.Stdout, 1<<16)
 	go func() {
@@ -108,6 +121,8 @@ func workerMain() {
 
 type worker struct {
 	cmd    *exec.Cmd
+	inPipe interface{ Close() error }
+	lastP  atomic.Pointer[string]
 	stdin  *bufio.Writer
 	lines  chan string
 	errBuf *tailBuffer
@@ -148,7 +163,7 @@ func startWorker() (*worker, error) {
 	if err != nil {
 		return nil, err
 	}
-	w := &worker{cmd: cmd, stdin: bufio.NewWriterSize(in, 1<<16), lines: make(chan string, 256), errBuf: &tailBuffer{}}
+	w := &worker{cmd: cmd, inPipe: in, stdin: bufio.NewWriterSize(in, 1<<16), lines: make(chan string, 256), errBuf: &tailBuffer{}}
 	cmd.Stderr = w.errBuf
 	if err := cmd.Start(); err != nil {
 		return nil, err
@@ -158,12 +173,19 @@ func startWorker() (*worker, error) {
 		sc := bufio.NewScanner(outp)
 		sc.Buffer(make([]byte, 1<<20), 1<<28)
 		for sc.Scan() {
-			w.lines <- sc.Text()
+			line := sc.Text()
+			if strings.HasPrefix(line, "P ") {
+				w.lastP.Store(&line) // progress lines are only kept, parsed when the worker dies
+				continue
+			}
+			w.lines <- line
 		}
 		close(w.lines)
 	}()
 	return w, nil
 }
+
+func (w *worker) closeIn() { w.inPipe.Close() }
 
 func (w *worker) kill() {
 	if w.cmd.Process != nil {
@@ -178,6 +200,10 @@ func (w *worker) kill() {
 
 func stopWorker() {
 	if theWorker != nil {
+		if os.Getenv("C08_WORKER_PROF") != "" { // development aid: let the worker finish its profile
+			theWorker.closeIn()
+			time.Sleep(300 * time.Millisecond)
+		}
 		theWorker.kill()
 		theWorker = nil
 	}
@@ -207,13 +233,23 @@ func (w *worker) do(req *Request) exchange {
 	if err := w.stdin.Flush(); err != nil {
 		return exchange{died: true, tail: "write to worker: " + err.Error() + "\n" + w.errBuf.String()}
 	}
-	var last *ProbeInfo
+	w.lastP.Store(nil)
+	lastProbe := func() *ProbeInfo {
+		if lp := w.lastP.Load(); lp != nil {
+			var pi ProbeInfo
+			if json.Unmarshal([]byte((*lp)[2:]), &pi) == nil {
+				return &pi
+			}
+		}
+		return nil
+	}
 	timer := time.NewTimer(caseTimeout())
 	defer timer.Stop()
 	for {
 		select {
 		case line, ok := <-w.lines:
 			if !ok {
+				last := lastProbe()
 				code := -1
 				if err := w.cmd.Wait(); err != nil {
 					if ee, ok := err.(*exec.ExitError); ok {
@@ -225,11 +261,6 @@ func (w *worker) do(req *Request) exchange {
 				return exchange{died: true, exit: code, last: last, tail: w.errBuf.String()}
 			}
 			switch {
-			case strings.HasPrefix(line, "P "):
-				var pi ProbeInfo
-				if json.Unmarshal([]byte(line[2:]), &pi) == nil {
-					last = &pi
-				}
 			case strings.HasPrefix(line, "R "):
 				var r Response
 				if err := json.Unmarshal([]byte(line[2:]), &r); err != nil {
@@ -238,7 +269,7 @@ func (w *worker) do(req *Request) exchange {
 				return exchange{resp: &r}
 			}
 		case <-timer.C:
-			return exchange{timedOut: true, last: last, tail: w.errBuf.String()}
+			return exchange{timedOut: true, last: lastProbe(), tail: w.errBuf.String()}
 		}
 	}
 }
@@ -302,6 +333,7 @@ func runCase(c Case, known []string) outcome {
 		f := &evid.Failure{Oracle: "no fault (process survives the call): probe " + ex.last.ID + " " + ex.last.Mut, Observed: "worker process died: " + tailOf(ex.tail), Expected: "returns", Class: "fatal"}
 		if cls := knownClass(&c, ex.last, f); cls != "" && knownSet[cls] {
 			out.excl[cls]++
+			out.labels["excluded-failure."+ex.last.Group+".fatal"]++
 			req.Skip = append(req.Skip, ex.last.ID)
 			continue
 		}
